@@ -68,10 +68,10 @@ func schedule(c *rt.Ctx) []Case {
 		}
 		// ---- realm diffs over two schemas (real RealmDiff)
 		cases = append(cases,
-			Case{Dialect: d, Src: "realm", Cur: midFlags, Des: richFlags, OCur: midFlags, ODes: midFlags},             // only the marker schema changes
-			Case{Dialect: d, Src: "realm", Cur: midFlags, Des: midFlags, OCur: midFlags, ODes: richFlags},              // only the other schema changes
+			Case{Dialect: d, Src: "realm", Cur: midFlags, Des: richFlags, OCur: midFlags, ODes: midFlags},               // only the marker schema changes
+			Case{Dialect: d, Src: "realm", Cur: midFlags, Des: midFlags, OCur: midFlags, ODes: richFlags},               // only the other schema changes
 			Case{Dialect: d, Src: "realm", Cur: midFlags, Des: richFlags, OCur: []string{"idx"}, ODes: []string{"col"}}, // both change
-			Case{Dialect: d, Src: "realm", Cur: midFlags, Des: midFlags, OCurAbsent: true, ODes: midFlags},             // AddSchema + tables
+			Case{Dialect: d, Src: "realm", Cur: midFlags, Des: midFlags, OCurAbsent: true, ODes: midFlags},              // AddSchema + tables
 			Case{Dialect: d, Src: "realm", Cur: midFlags, Des: richFlags, OCurAbsent: true, ODes: midFlags},
 			Case{Dialect: d, Src: "realm", Cur: midFlags, Des: midFlags, OCur: midFlags, ODesAbsent: true}, // DropSchema
 		)
